@@ -226,3 +226,11 @@ Theorem C15_source_impl_bounds :
   bounds_of "TryFrom<Box<[T]>> for GenericArray<T,N>" = Some ["N:ArrayLength"] /\
   bounds_of "IntoIterator for Box<GenericArray<T,N>>" = Some ["N:ArrayLength"].
 Proof. repeat split. Qed.
+
+(* the From impls FOR Box<[T]> and Vec<T> (regenerated): one call chain each, no bound besides the length's *)
+Theorem C15_source_from_array :
+  thin_of "From<GenericArray<T,N>> for Box<[T]>" "from" = Some "Box :: new (value) . into_boxed_slice ()" /\
+  thin_of "From<GenericArray<T,N>> for Vec<T>" "from" = Some "Box :: < [T] > :: from (value) . into ()" /\
+  bounds_of "From<GenericArray<T,N>> for Box<[T]>" = Some ["N:ArrayLength"] /\
+  bounds_of "From<GenericArray<T,N>> for Vec<T>" = Some ["N:ArrayLength"].
+Proof. repeat split. Qed.
